@@ -743,6 +743,89 @@ def leaves(e: ast.AST, facts=()):
     return [(list(facts), e)]
 
 
+_SCOPES = (ast.ListComp, ast.SetComp, ast.DictComp, ast.GeneratorExp, ast.Lambda)
+
+
+def _first_plain_ifexp(n: ast.AST) -> Optional[ast.IfExp]:
+    """The first conditional expression (outside comprehensions / lambdas) whose own test contains none."""
+    if isinstance(n, _SCOPES):
+        return None
+    if isinstance(n, ast.IfExp):
+        inner = _first_plain_ifexp(n.test)
+        return inner if inner is not None else n
+    for c in ast.iter_child_nodes(n):
+        r = _first_plain_ifexp(c)
+        if r is not None:
+            return r
+    return None
+
+
+class _Specialise(ast.NodeTransformer):
+    def __init__(self, test_text: str, truth: bool) -> None:
+        self.t, self.truth = test_text, truth
+
+    def visit_IfExp(self, node: ast.IfExp):
+        if ast.unparse(node.test) == self.t:
+            return self.visit(node.body if self.truth else node.orelse)
+        self.generic_visit(node)
+        return node
+
+    def _scope(self, node):
+        return node
+
+    visit_ListComp = visit_SetComp = visit_DictComp = visit_GeneratorExp = visit_Lambda = _scope
+
+
+class _FoldIdentity(ast.NodeTransformer):
+    """`X is X` (X a name or attribute chain) is True, `X is not X` False; conditionals and `not` over constants fold."""
+    def visit_Compare(self, node: ast.Compare):
+        self.generic_visit(node)
+        if len(node.ops) == 1 and isinstance(node.ops[0], (ast.Is, ast.IsNot)):
+            l, r = node.left, node.comparators[0]
+            chain = lambda x: isinstance(x, ast.Name) or (isinstance(x, ast.Attribute) and chain(x.value))
+            if chain(l) and chain(r) and ast.unparse(l) == ast.unparse(r):
+                return ast.Constant(value=isinstance(node.ops[0], ast.Is))
+        return node
+
+    def visit_UnaryOp(self, node: ast.UnaryOp):
+        self.generic_visit(node)
+        if isinstance(node.op, ast.Not) and isinstance(node.operand, ast.Constant) and isinstance(node.operand.value, bool):
+            return ast.Constant(value=not node.operand.value)
+        return node
+
+    def visit_IfExp(self, node: ast.IfExp):
+        self.generic_visit(node)
+        if isinstance(node.test, ast.Constant):
+            return node.body if node.test.value else node.orelse
+        return node
+
+
+def lift_ifs(e: ast.AST, budget: int = 64) -> ast.AST:
+    """`e` as a decision tree: conditional expressions only at the top, none inside operands, arguments or subscripts
+    (`f(a if c else b)` == `f(a) if c else f(b)`; valid because tests here are side-effect-free reads).  Every
+    occurrence of the same test is decided together."""
+    e = _FoldIdentity().visit(copy.deepcopy(e))
+    n = _first_plain_ifexp(e)
+    if n is None or budget <= 0:
+        return e
+    t = ast.unparse(n.test)
+    a = lift_ifs(_Specialise(t, True).visit(copy.deepcopy(e)), budget // 2)
+    b = lift_ifs(_Specialise(t, False).visit(copy.deepcopy(e)), budget // 2)
+    if ast.dump(a) == ast.dump(b):
+        return a
+    return ast.fix_missing_locations(ast.IfExp(test=copy.deepcopy(n.test), body=a, orelse=b))
+
+
+def consistent(facts) -> bool:
+    """No atom taken both ways."""
+    seen = {}
+    for (a, tr) in facts:
+        k = a if isinstance(a, str) else ast.unparse(a)
+        if seen.setdefault(k, tr) != tr:
+            return False
+    return True
+
+
 def item_layers(e: ast.AST, facts=()):
     """An object built by item stores, possibly conditional: (base, [(key, value, facts)]).  `e` is the gated value of
     the object: `<setitem>(<setitem>(base, k1, v1) if c else base, k2, v2)` ..."""
